@@ -940,3 +940,63 @@ pub fn churn_type(reg: &Registry, ty: usize, seed: u64, n: u64) -> ChurnOutcome 
     let _ = guard(|| unsafe { (t.drop)(pa) });
     out
 }
+
+/// A compact route grid for the interpreter: every role obtained by every route (new, clone, From<&Enc>,
+/// From<Enc>, clone of converted, clone_from), each used once, single build variant.
+pub fn target_route_case(reg: &Registry, fam_name: &str, variant: &str, mask: bool, seed: u64) -> Option<GridCase> {
+    use crate::registry::{Dir, Role, Shape};
+    let f = reg.family(fam_name)?;
+    let fam = &reg.families[f];
+    let vidx = fam.variants.iter().position(|v| v.variant == variant)?;
+    let mut rng = Prng::new(seed ^ 0x207E5);
+    let mut variants = std::collections::BTreeMap::new();
+    variants.insert(f, vec![vidx]);
+    let cfg = RunCfg { variants, mask, tasks: 1, strict_arena: false };
+    let bs = fam.block;
+    let key = rng.bytes(fam.key_size);
+    let key2 = rng.bytes(fam.key_size);
+    let mut ops: Vec<Op> = Vec::new();
+    let mut off = 0u32;
+    let mut call = |ops: &mut Vec<Op>, id: u32, role: Role, rng: &mut Prng| {
+        for dir in [Dir::Enc, Dir::Dec] {
+            if role.can(dir) {
+                off = (off + 48) % 4096;
+                ops.push(Op::Call { id, task: 0, dir, shape: Shape::Blocks, n: 2, in_off: off, out_off: off, data: rng.bytes(2 * bs) });
+            }
+        }
+    };
+    let roles: Vec<Role> = if fam.split { vec![Role::Enc, Role::Dec, Role::Both] } else { vec![Role::Both] };
+    let mut id = 0u32;
+    for role in roles {
+        id += 10;
+        let a = id;
+        ops.push(Op::New { id: a, task: 0, fam: f, role, key: key.clone(), fixed: false });
+        ops.push(Op::Clone { id: a + 1, task: 0, src: a });
+        call(&mut ops, a + 1, role, &mut rng);
+        ops.push(Op::New { id: a + 2, task: 0, fam: f, role, key: key2.clone(), fixed: true });
+        ops.push(Op::CloneFrom { id: a + 2, task: 0, src: a + 1 });
+        ops.push(Op::Drop { id: a + 1, task: 0 });
+        call(&mut ops, a + 2, role, &mut rng);
+        if role == Role::Enc {
+            let mut k = a + 3;
+            for to in [Role::Dec, Role::Both] {
+                for by_ref in [true, false] {
+                    // convert a clone of the source, then clone the converted instance and use that
+                    ops.push(Op::Clone { id: k, task: 0, src: a });
+                    ops.push(Op::Conv { id: k + 100, task: 0, src: k, to, by_ref });
+                    if by_ref {
+                        ops.push(Op::Drop { id: k, task: 0 });
+                    }
+                    ops.push(Op::Clone { id: k + 200, task: 0, src: k + 100 });
+                    ops.push(Op::Drop { id: k + 100, task: 0 });
+                    call(&mut ops, k + 200, to, &mut rng);
+                    ops.push(Op::Drop { id: k + 200, task: 0 });
+                    k += 1;
+                }
+            }
+        }
+        ops.push(Op::Drop { id: a + 2, task: 0 });
+        ops.push(Op::Drop { id: a, task: 0 });
+    }
+    Some(GridCase { cfg, ops, label: format!("{} {} routes mask_aes={}", fam_name, variant, mask) })
+}
